@@ -48,6 +48,7 @@ def _case(draw, tier):
         n = topo[i]
         n["k"] = "interrupt"
         n["mode"] = draw(st.sampled_from(["pause", "pause", "pause", "auto"]))
+        n["async_handler"] = prob(draw, 0.4)  # `async def` handler: its awaited result decides, not the coroutine object
         ans = {}
         for o in n["outs"]:
             ans[o] = draw(st.sampled_from(FALSY)) if prob(draw, 0.25) else ["ans", n["name"], o]
